@@ -21,6 +21,53 @@ STR_UNIVERSES = [["a", "b", "c", "d"], ["x", "xx", "y"], ["0", "1", "10", "2"], 
 BIG_UNIVERSES = [[0, 2 ** 31, 2 ** 40, 7], [-(2 ** 35), 0, 3, 2 ** 63 - 1], [2 ** 31 - 1, 2 ** 31, 2 ** 32, 2 ** 32 + 1]]
 
 
+def harvest_size_constants(lo, hi):
+    """integer constants of the current iindexes source (C19's partition refinement applied to row counts)"""
+    import ast, inspect
+    import catii.iindexes as mod
+    out = set()
+    for node in ast.walk(ast.parse(inspect.getsource(mod))):
+        if isinstance(node, (ast.Constant, ast.BinOp)):
+            try:
+                v = eval(compile(ast.Expression(node), "<c>", "eval"), {"__builtins__": {}})
+            except Exception:  # noqa
+                continue
+            if isinstance(v, int) and not isinstance(v, bool) and lo <= v <= hi:
+                out.add(v)
+    return sorted(out)
+
+
+def big_index_events(rec, iindex, tier, seed):
+    """indexes with thousands of rows (4097 always; c - 1, c, c + 1, 2c + 1 for every size constant of the current
+    source between 1000 and 20000, 200..70000 in the thorough tier): few uncommon cells, six distinct values, uncommon
+    cells at the very start, the very end and around every multiple of the constant - the input on which the
+    size- and sparsity-dependent strategies of from_array (and of collapsed, which ends in from_array) are chosen"""
+    rnd = random.Random(seed)
+    consts = harvest_size_constants(1000, 20000) if tier == "quick" else harvest_size_constants(200, 70000)
+    sizes = sorted({4097} | {c + d for c in consts for d in (-1, 0, 1)} | {2 * c + 1 for c in consts})
+    for n in sizes:
+        marks = {0, 1, n - 2, n - 1} | {k * c + d for c in consts + [1024] for k in (1, 2, 3) for d in (-1, 0, 1) if 0 <= k * c + d < n}
+        marks |= {rnd.randrange(n) for _ in range(max(8, n // 200))}
+        d = np.zeros(n, dtype=np.int64)
+        for q in sorted(marks):
+            d[q] = rnd.choice([1, 2, 3, 4, 5])
+        idx = rec.from_array(d)
+        rec.from_array(d, common=7)
+        if idx is not None:
+            rec.to_array(idx)
+            tail = canonical(iindex, np.array([3, 0, 5], dtype=object), 0)
+            rec.append(idx, tail)
+            mask = np.ones(idx.shape[0], dtype=bool)
+            mask[[0, idx.shape[0] // 2, idx.shape[0] - 1]] = False
+            rec.filtered(idx, mask)
+        d2 = np.stack([d, np.roll(d, 5)], axis=1)
+        idx2 = rec.from_array(d2)
+        if idx2 is not None:
+            rec.collapsed(idx2, [5, 4, 3, 2, 1, 0])
+            rec.collapsed(idx2, [2, 0])
+    return {"sizes": sizes, "constants": consts}
+
+
 class Chains:
     def __init__(self, iindex, column_stack, seed):
         self.rnd = random.Random(seed)
